@@ -61,7 +61,14 @@ def run(tier="quick", seed=0):
         return p
 
     def one_boot(host, image_len, kwargs, via_dict, path=None):
-        """-> (why or None).  Runs the real boot() and checks everything this call sent."""
+        """-> (why or None).  Runs the real boot() and checks everything this call sent; an exception out of the real code (boot()
+        refuses no image below the size limit and no option set used here) is a reason too."""
+        try:
+            return _one_boot(host, image_len, kwargs, via_dict, path)
+        except Exception as e:      # noqa
+            return "%s: %s" % (type(e).__name__, e)
+
+    def _one_boot(host, image_len, kwargs, via_dict, path=None):
         del sent[:]
         n_sends[0] = 0
         if path is None:
@@ -140,7 +147,7 @@ def run(tier="quick", seed=0):
     B.time.sleep = lambda s: None
     B.time.time = lambda: 1234567.0
     try:
-        sizes = [512, 1020, 1024, 1028, 2048, 4096, 31744, None] if tier == "quick" else [512, 516, 1020, 1024, 1028, 2044, 2048, 3072, 4096, 27648, 31744, 32764, None]
+        sizes = [512, 1020, 1024, 1028, 2048, 4096, 31744, 31748, 32764, None] if tier == "quick" else [512, 516, 1020, 1024, 1028, 2044, 2048, 3072, 4096, 27648, 31744, 32764, None]
         presets = [{}, dict(B.spin3_boot_options), dict(B.spin5_boot_options), {"hw_ver": 2, "led0": 0x6103, "soft_wdog": 0, "cpu_clk": 150, "led_period": 7}]
         # (a) single boots: every size x every option set x both ways of passing
         for sz in sizes:
